@@ -414,7 +414,14 @@ def call_method(ev, bm, node, st):
             writeback(newv)
             return NoneV()
         if name == "extend":
-            raise Unsupported("extend")
+            # extending by a fixed-width row / tuple / literal list: one append per item
+            if recv.kind != "list" or not isinstance(args[0], Tup):
+                raise Unsupported("extend")
+            newv = recv
+            for it in args[0].items:
+                newv = newv.append(it)
+            writeback(newv)
+            return NoneV()
         if name in ("max", "min", "sum", "argmax", "argmin", "argsort", "mean", "all", "any"):
             f = LIB["numpy." + name]
             if not ev.spec:
@@ -770,6 +777,8 @@ def lib_sqrt(ev, args, kw, st, node):
 @lib("numpy.square")
 def lib_square(ev, args, kw, st, node):
     v = args[0]
+    if isinstance(v, Tup) and all(isinstance(x, Num) for x in v.items):
+        return Tup([Num(x.t * x.t) for x in v.items], islist=v.islist, isrow=v.isrow)
     if isinstance(v, Seq):
         return Seq.from_fn(v.n, v.esh, lambda k: map_leaves(v.at(k), lambda x: Num(x.t * x.t)))
     x = as_num(v)
